@@ -129,6 +129,13 @@ def build(rc: RuleCtx, qual: str, bind: Optional[Dict[str, Any]] = None) -> Loop
     left, right = out.env.get(lname), out.env.get(rname)
     if not (isinstance(left, Rat) and isinstance(right, Rat)):
         raise AnalysisError(f"{qual}: popped bounds are not simple values")
+    # the popped bounds are integers when they are used, unconditionally, as slice bounds
+    for st in loop.body:
+        for sub in ast.walk(st) if isinstance(st, (ast.Assign, ast.Expr)) else ():
+            if isinstance(sub, ast.Subscript) and isinstance(sub.slice, ast.Slice) and isinstance(sub.slice.lower, ast.Name) \
+                    and isinstance(sub.slice.upper, ast.Name) and (sub.slice.lower.id, sub.slice.upper.id) == (lname, rname):
+                anf.declare_integer(left)
+                anf.declare_integer(right)
     pushes = []
     k = 0
     for e in out.events:
@@ -138,6 +145,14 @@ def build(rc: RuleCtx, qual: str, bind: Optional[Dict[str, Any]] = None) -> Loop
             if not isinstance(v, Vec):
                 raise AnalysisError(f"{qual}: a non-tuple value is pushed on the work stack")
             pushes.append(Push(e.guard, v.items, e.node, k))
+        elif e.kind == "extend" and e.target == stack:
+            # stack.extend((a, b)) pushes a then b
+            v = e.args[0]
+            if not (isinstance(v, Vec) and all(isinstance(x, Vec) for x in v.items)):
+                raise AnalysisError(f"{qual}: stack.extend with a value that is not a display of tuples")
+            for x in v.items:
+                k += 1
+                pushes.append(Push(e.guard, x.items, e.node, k))
     # roles are discovered from what the code does, never from variable names
     for e in out.events:
         if e.kind == "call" and isinstance(e.node, ast.Call) and isinstance(e.node.func, ast.Name) and len(e.args) == 3:
@@ -158,7 +173,7 @@ def build(rc: RuleCtx, qual: str, bind: Optional[Dict[str, Any]] = None) -> Loop
 def _index_like(v: Rat) -> bool:
     rest, _c = split_const(v)
     a = single_atom(rest)
-    return a is not None and a.kind == "fn" and a.name in ("argmax", "argmin", "int")
+    return a is not None and a.kind == "fn" and a.name in ("argmax", "argmin", "int", "floor")
 
 
 def _find_index(env_post, env_pre):
@@ -226,10 +241,10 @@ def interval_of(m: LoopModel, idx: Rat) -> Optional[Interval]:
         if not Lx.equals(L):
             return None
         return Interval(C(c), Lx.sub(C(1)).add(C(c)), f"{a.name} over the whole distance vector (length L) + {c}")
-    if a.kind == "fn" and a.name == "int":
+    if a.kind == "fn" and a.name in ("int", "floor"):
         inner = a.args[0]
         if inner.mul(C(2)).equals(L) and c == 0:
-            return Interval(C(1), L.sub(C(2)), "int(L/2) with integer L >= 3 lies in [1, L-2]", needs_L3=True)
+            return Interval(C(1), L.sub(C(2)), "int(L/2) (or L//2) with integer L >= 3 lies in [1, L-2]", needs_L3=True)
     return None
 
 
